@@ -20,3 +20,18 @@ Example simple_chunks_example :
   simple_leaves (fuel_for (mkrng 0 10 3)) (mkrng 0 10 3)
   = Some [mkrng 0 2 3; mkrng 2 5 3; mkrng 5 7 3; mkrng 7 10 3].
 Proof. vm_compute. reflexivity. Qed.
+
+(* parallel_for(first, last, step, f) with step > 0 and first < last (any magnitudes): the body is called for the indices
+   first + i*step, 0 <= i < trip — all of them lie in [first, last), the next member of the progression does not, no index is
+   produced twice, and every member of the progression below last is produced. *)
+Theorem strided_loop_indices : forall first last step, 0 < step -> first < last ->
+  0 < strided_trip first last step /\
+  (forall i, 0 <= i < strided_trip first last step -> first <= strided_index first step i < last) /\
+  last <= strided_index first step (strided_trip first last step) /\
+  (forall i j, strided_index first step i = strided_index first step j -> i = j) /\
+  (forall k, 0 <= k -> strided_index first step k < last -> k < strided_trip first last step).
+Proof.
+  intros f l s Hs Hl. destruct (strided_exact f l s Hs Hl) as (A & B & C & D).
+  repeat split; auto; try (apply B; auto). intros k Hk Hx. exact (strided_complete f l s k Hs Hl Hk Hx).
+Qed.
+Print Assumptions strided_loop_indices.
